@@ -38,6 +38,23 @@ def generate(g, tier):
             if nm == '' and c in ('var', 'func'): continue
             cases.append(dict(op='compile', src=dict(text=define(c, nm)), meta=dict(family='define-' + c, name=nm, valid=bool(IDENT.match(nm)))))
         cases.append(dict(op='compile', src=dict(text=define('repeat', nm, True)), meta=dict(family='define-repeat0', name=nm, valid=bool(IDENT.match(nm)))))
+    # the rules hold the SECOND time too: the same construct (for functions: the same function name) was used validly earlier in the
+    # compilation — at top level, in a block, in a function that is run twice, in a file imported twice
+    AGAIN = ['1b', '$x', 'a-b', '$DEFAULT_DELAY', 'a.b', '日', '9', 'ok_1', 'B2', '_']
+    PRE = {'var': ['VAR good 1\n', 'VAR good 1\nVAR good 2\n'],
+           'func': ['FUNC good\n    PASS\n', 'FUNC f\n    PASS\nRUN f\n'],
+           'param': ['FUNC f a\n    STRING first\n', 'FUNC f a\n    STRING first\nRUN f 1\n', 'FUNC f\n    STRING first\nFUNC f b\n    STRING second\n'],
+           'repeat': ['REPEAT i,1\n    PASS\n', 'REPEAT i,2\n    REPEAT j,1\n        PASS\n'],
+           'while': ['WHILE w,w<1\n    PASS\n']}
+    for nm in AGAIN:
+        for c in CONSTRUCTS:
+            for pre in PRE[c]:
+                cases.append(dict(op='compile', src=dict(text=pre + define(c, nm)), meta=dict(family='define-again-' + c, name=nm, valid=bool(IDENT.match(nm)))))
+            body = '\n'.join('    ' + l for l in define(c, nm).split('\n'))
+            cases.append(dict(op='compile', src=dict(text='FUNC outer\n' + body + '\nRUN outer\nRUN outer'), meta=dict(family='define-again-' + c, name=nm, valid=bool(IDENT.match(nm)))))
+            lib = PRE[c][0] + ('FUNC libf\n    PASS\n')
+            cases.append(dict(op='compile_file', file='p/main.txt', files={'p/main.txt': 'START lib\nSTART lib\n' + define(c, nm), 'p/lib.txt': lib},
+                              meta=dict(family='define-again-' + c, name=nm, valid=bool(IDENT.match(nm)))))
     # accepted names are readable and testable whatever else is defined
     pool = ['a', 'ab', 'abc', 'abcd', 'b', 'ba', 'x', 'x1', 'x12', '_', '_a', 'i', 'ii', 'count', 'count1', 'n', 'nn', 'Ab', 'AB', 'tr', 'fa', 'v_1', 'v_', 't', 'f', 'T', 'TR', 'F', 'FALS', 'TRUEX', 'FALSEY', 'Tx']
     for _ in range(count(tier, 400, 4000)):
